@@ -327,7 +327,11 @@ class PatternRewriter(Builder, PatternRewriterListener):
         Move the block operations to the specified insertion point.
         """
         self.has_done_action = True
+        # Operations of a free-standing block were never reported as inserted.
+        inserted_ops = list(block.ops) if block.parent is None else ()
         Rewriter.inline_block(block, insertion_point, arg_values=arg_values)
+        for op in inserted_ops:
+            self.handle_operation_insertion(op)
 
     def move_region_contents_to_new_regions(self, region: Region) -> Region:
         """Move the region blocks to a new region."""
